@@ -54,6 +54,14 @@ func storedSide(v ssa.Value) (string, bool) {
 	}
 	call, ok := root.(*ssa.Call)
 	if !ok {
+		// a predicate split off a CAS function receives the stored row as a parameter
+		// (func casIndexMatches(casIndex uint64, existing interface{}) bool): the row's ModifyIndex
+		if prm, isParam := root.(*ssa.Parameter); isParam && !isUint(prm.Type()) && a.LastField() == "ModifyIndex" && len(a.Fields) <= 2 {
+			f := prm.Parent()
+			if f != nil && f.Signature.Results().Len() == 1 && isBoolT(f.Signature.Results().At(0).Type()) && f.Signature.Recv() == nil {
+				return "ModifyIndex", true
+			}
+		}
 		return "", false
 	}
 	name := core.MethodNameOf(&call.Call)
@@ -82,6 +90,21 @@ func storedSide(v ssa.Value) (string, bool) {
 		return "IndexEntry.Value", true
 	}
 	return "", false
+}
+
+// cmpIsPredicateResult: f is a side-effect-free function with a single bool result and the
+// comparison (possibly negated, possibly as one operand of a short-circuit) flows into that result.
+func cmpIsPredicateResult(p *core.Program, f *ssa.Function, cmp *ssa.BinOp) bool {
+	if f.Signature.Results().Len() != 1 || !isBoolT(f.Signature.Results().At(0).Type()) || mayWrite(p, f) {
+		return false
+	}
+	reaches := false
+	core.ForwardUses(cmp, func(u ssa.Instruction, _ ssa.Value) {
+		if _, ok := u.(*ssa.Return); ok {
+			reaches = true
+		}
+	})
+	return reaches
 }
 
 func discoverCAS(p *core.Program) []casSite {
@@ -218,6 +241,10 @@ func runC10(c *Ctx) {
 		construct := name + "/" + s.stored
 		pos := p.Pos(s.cmp.Pos())
 		if len(mism) == 0 {
+			if cmpIsPredicateResult(p, s.fn, s.cmp) {
+				r.Hold("C10.1", construct, pos, "the comparison is the result of a side-effect-free predicate: a mismatch makes it report false (its call sites consume the result, C10.3)")
+				continue
+			}
 			r.Undecide("C10.1", construct, pos, "the comparison does not feed a branch directly")
 			continue
 		}
@@ -418,6 +445,15 @@ func runC10(c *Ctx) {
 					bi := boolResultIndex(callee)
 					used := false
 					if call.Referrers() != nil {
+						// a single bool result (a predicate split off the CAS function) is the call value itself
+						if callee.Signature.Results().Len() == 1 {
+							core.ForwardUses(call, func(u ssa.Instruction, _ ssa.Value) {
+								switch u.(type) {
+								case *ssa.If, *ssa.Return, *ssa.Store, *ssa.MakeInterface, *ssa.Call:
+									used = true
+								}
+							})
+						}
 						for _, rr := range *call.Referrers() {
 							if ex, ok := rr.(*ssa.Extract); ok && ex.Index == bi {
 								core.ForwardUses(ex, func(u ssa.Instruction, _ ssa.Value) {
@@ -655,7 +691,51 @@ func checkAbsentRowNeedsZero(c *Ctx, s casSite, ra core.Access, only7 bool) {
 			},
 		}
 		w7.FromEntry(f)
-		if len(match) == 0 {
+		if len(match) == 0 && cmpIsPredicateResult(p, f, s.cmp) {
+			// the comparison is a predicate's result: in every caller, each write lies below the predicate's true edge
+			bad7 := ""
+			sites7 := callersOf(p, f, "agent/consul/state")
+			for _, cs := range sites7 {
+				cv, ok := cs.(*ssa.Call)
+				if !ok {
+					bad7 = "the predicate is called in a go/defer statement at " + p.Pos(cs.Pos())
+					continue
+				}
+				te, _ := core.CondEdges(cv)
+				cutT := map[core.Edge]bool{}
+				for _, e := range te {
+					cutT[e] = true
+				}
+				wc := &core.Walk{
+					Cut: func(b *ssa.BasicBlock, si int) bool { return cutT[core.Edge{From: b, Succ: si}] },
+					Visit: func(in ssa.Instruction) {
+						if op := core.AsMemdbOp(in); op != nil {
+							if op.IsWrite() {
+								bad7 = "the write at " + p.Pos(in.Pos()) + " is reachable although the predicate did not report a match"
+							}
+							return
+						}
+						if ci, ok := in.(ssa.CallInstruction); ok {
+							if g := ci.Common().StaticCallee(); g != nil && mayWrite(p, g) {
+								bad7 = "the write at " + p.Pos(in.Pos()) + " is reachable although the predicate did not report a match"
+							}
+						}
+					},
+				}
+				wc.FromInstr(cv)
+				if len(te) == 0 {
+					bad7 = "the predicate's result does not decide a branch at " + p.Pos(cs.Pos())
+				}
+			}
+			if len(sites7) == 0 {
+				bad7 = "the predicate has no caller"
+			}
+			if bad7 != "" {
+				r.Violate("C10.7", construct, pos, bad7+": a request with a stale expected index is applied and reported as applied")
+			} else {
+				r.Hold("C10.7", construct, pos, "the comparison is a predicate's result and every write of its callers lies below the predicate's true edge")
+			}
+		} else if len(match) == 0 {
 			r.Undecide("C10.7", construct, pos, "the comparison does not feed a branch")
 		} else if hit7 != nil {
 			r.Violate("C10.7", construct, pos, fmt.Sprintf("the write at %s is reachable without the expected index having been compared and found equal (the comparison is skipped under a condition that is neither 'row absent', 'expected index zero' nor a boolean mode flag): a request with a stale expected index is applied and reported as applied", p.Pos(hit7.Pos())), w7.PathTo(p, hit7.Block())...)
